@@ -42,6 +42,7 @@ func allBunModel(c *core.Ctx) *bunq.Model {
 		for _, pk := range c.Prog().RepoPackages() {
 			pkgs = append(pkgs, pk)
 		}
+		setBunqResolver(c)
 		m := bunq.Build(pkgs)
 		c.Stats["bun_statements_all_packages"] = len(m.Stmts)
 		c.Stats["direct_sql_exec_calls"] = len(m.ExecCalls)
